@@ -7,14 +7,15 @@ SRC=/tmp/seed/$TAG
 W=/tmp/sv/$TAG-repo; V=/tmp/sv/$TAG-verif
 rm -rf $V; git -C /repo worktree remove --force $W 2>/dev/null; mkdir -p /tmp/sv
 git -C /repo worktree add -q --detach $W HEAD || exit 9
-cp $SRC/demo_$TAG.py $W/ ; 
+cp $SRC/demo_$TAG.py $W/ ; cp /repo/spsdk/__version__.py $W/spsdk/__version__.py
+
 echo "== demo on original"; (cd $W && PYTHONPATH=$W /venv/bin/python demo_$TAG.py >/tmp/sv/$TAG.demo0 2>&1); echo "exit=$?"
 (cd $W && git apply $SRC/patch_$TAG.diff) || { echo "PATCH DOES NOT APPLY"; exit 8; }
 echo "== demo with change"; (cd $W && PYTHONPATH=$W /venv/bin/python demo_$TAG.py >/tmp/sv/$TAG.demo1 2>&1); echo "exit=$?"; tail -3 /tmp/sv/$TAG.demo1
 if [ "${SKIP_SUITE:-0}" != 1 ]; then
 echo "== test suite with change"
 (cd $W && env -u SPSDK_VERIF PYTHONPATH=$W /venv/bin/python -m pytest -q -p no:cacheprovider --timeout=900 --continue-on-collection-errors -n 12 --junitxml=/tmp/sv/$TAG.xml > /tmp/sv/$TAG.suite.log 2>&1); tail -1 /tmp/sv/$TAG.suite.log
-python3 /verif/tools/baseline_cmp.py /tmp/sv/$TAG.xml
+python3 /verif/tools/baseline_cmp.py /tmp/sv/$TAG.xml | head -6
 fi
 echo "== ./check $PROP against the changed tree (isolated copy of /verif)"
 rsync -a --exclude .git --exclude replays --exclude evidence /verif/ $V/
